@@ -103,6 +103,42 @@ BASES = [
 ]
 
 
+# ---------------------------------------------------------------- what normalize_url / fingerprint_url document as irrelevant
+# (transcribed from README + ural/normalize_url.py at the pinned commit; a mutation of the code's
+#  regexes is judged against this fixed reference)
+NORM = {
+    "exact_keys": [cp(x) for x in [
+        "__twitter_impression", "_guc_consent_skip", "guccounter", "fb_action_types", "sessionid", "phpsessionid",
+        "aspsessionid", "jsessionid", "fb_action_ids", "fb_source", "echobox", "feature", "recruiter", "_unique_id",
+        "twclid", "mibextid", "campaignid", "adgroupid", "cn-reloaded", "ao_noptimize", "mkt_tok", "fbclid", "igshid",
+        "refid", "gclid", "mc_cid", "mc_eid", "__tn__", "_ft_", "dclid", "wpamp", "fref", "usqp", "ncid", "een", "seen",
+        "cftoken", "cfid", "sid", "xtloc", "xtref", "xtcr", "xtnp", "xtor", "xts", "_ga"]],
+    "prefix_keys": [cp(x) for x in ["mtm_", "utm_", "at_"]],          # prefix followed by at least one character
+    "amp_exact_keys": [cp("amp")],
+    "amp_prefix_keys": [cp("amp_")],
+    "combos": [[cp(k), [cp(v) for v in vs]] for k, vs in [
+        ("marfeeltn", ["amp"]), ("mode", ["amp"]), ("output", ["amp"]), ("platform", ["hootsuite"]),
+        ("fromref", ["twitter"]), ("m", ["0", "1"]),
+        ("ref", ["bookmark", "bookmarks", "distributor_share", "fb", "fb_i", "m_notif", "nf", "notif", "shortener", "ts",
+                 "tw", "tw_i", "twhr", "twhs", "twitter", "viral", "feed", "twtrec"]),
+        ("source", ["twitter"]), ("sns", ["tw"]), ("spref", ["fb", "ts", "tw", "tw_i", "twitter"]), ("_ss", ["r"])]],
+    "amp_combos": [[cp("outputtype"), [cp("amp")]]],
+    "digit_key": cp("s"),                                                # s=<1 or 2 digits>
+    "domain_keys": [[cp("facebook.com"), [cp("_rdc"), cp("_rdr")]],
+                    [cp("youtube.com"), [cp(x) for x in ["t", "si", "cbrd", "ucbcb", "ab_channel"]]]],
+    "lang_keys": [cp("gl"), cp("hl")],
+    "sub_labels": [cp(x) for x in ["www", "mobile", "m"]],               # plus www<digit>
+    "amp_label": cp("amp"),
+    "index_names": [cp("index"), cp("default")],
+    "tracking_items": [cp(x) for x in ["utm_source=x", "fbclid=IwAR0", "ref=tw", "xtor=1", "PHPSESSIONID=ab", "s=12", "at_medium=y",
+                                       "UTM_campaign", "_ga=1.2", "gclid="]],
+    "amp_items": [cp(x) for x in ["amp", "amp_js_v=0.1", "outputType=amp", "mode=amp"]],
+    "lang_items": [cp(x) for x in ["gl=fr", "hl=en", "GL=US"]],
+    "index_pages": [cp(x) for x in ["index.html", "index.php", "index", "default.aspx", "index.xhtml"]],
+    "countries": None,
+}
+
+
 def main():
     d = os.path.join(ROOT, "spec", "data")
     os.makedirs(d, exist_ok=True)
@@ -110,6 +146,12 @@ def main():
         json.dump(URLGEN, f, separators=(",", ":"))
     with open(os.path.join(d, "bases.json"), "w") as f:
         json.dump({"bases": BASES}, f, separators=(",", ":"))
+    import sys
+    sys.path.insert(0, "/repo")
+    from ural.data import ISO_3166_1_COUNTRIES_ALPHA_2  # data the property is stated over, not logic
+    NORM["countries"] = [cp(c.lower()) for c in sorted(ISO_3166_1_COUNTRIES_ALPHA_2)]
+    with open(os.path.join(d, "normdata.json"), "w") as f:
+        json.dump(NORM, f, separators=(",", ":"))
     print("written", d)
 
 
